@@ -237,6 +237,16 @@ def check(facts, rep, tier, cfg):
                 witness=["bb%d %s" % (x, loc_str(b.term(x)["loc"])) for x in missing_any["psk"][-10:]])
     else:
         rep.ok("C14.R1", "gate/psk", where, "psk not configured, or x-penguin-psk == PSK (HeaderValue equality)")
+    # converse ("if"): both PSK situations can reach the upgrade
+    with_psk = [a for a, w in up if ("psk_configured", True) in a[0] and ("psk==", True) in a[0]]
+    without_psk = [a for a, w in up if ("psk_configured", False) in a[0] and not any(n.startswith("psk=") or n.startswith("psk~") for n, _ in a[0])]
+    if up and with_psk and without_psk:
+        rep.ok("C14.R1", "gate/psk-admits", where, "upgrade reachable with (PSK configured, header equal) and with (no PSK configured, header not examined)")
+    elif up:
+        rep.bad("C14.R1", "gate/psk-admits", where,
+                "the upgrade is not reachable %s: valid clients are turned away" % (
+                    "when a PSK is configured and the request carries exactly that PSK" if not with_psk else
+                    "when no PSK is configured unless the request satisfies a PSK comparison"))
     rep.floor("C14.R1", "gate guards recognised", len(set(lits.values())), 9)
     # ---- R2
     rep.rule("C14.R2", "every exit that does not upgrade returns the backend-or-404 handler's result")
